@@ -149,6 +149,22 @@ def check_legacy_sequence(case: dict):
     """vocabularies must not depend on which other tokenizers were built before in the same process"""
     for mode, n in case["seq"]:
         check_legacy({"mode": mode, "n": n})
+    if case.get("resize"):
+        # one tokenizer object re-used for another grid size: the size is reassigned and the cached views are cleared (what clear_cache
+        # is for); every view must then agree with a tokenizer freshly built for the new size
+        mode, n0 = case["seq"][0]
+        t = _legacy(mode, n0)
+        list(t.token_arr), dict(t.tokenizer_map), t.vocab_size
+        for n1 in case["resize"]:
+            t.max_grid_size = n1
+            call(f"C14:{mode}:clear_cache", t.clear_cache)
+            fresh = _legacy(mode, n1)
+            arr = list(t.token_arr)
+            require(arr == list(fresh.token_arr), f"C14:{mode}:resized:token_arr", f"after resizing {n0} -> {n1} the token list differs from a fresh tokenizer's")
+            require(dict(t.tokenizer_map) == {tok: i for i, tok in enumerate(arr)}, f"C14:{mode}:resized:map-not-inverse",
+                    f"after resizing {n0} -> {n1} (clear_cache called) the token-to-id map is not the inverse of the token list: {len(t.tokenizer_map)} entries vs {len(arr)} tokens")
+            require(t.vocab_size == len(arr), f"C14:{mode}:resized:vocab_size", f"{t.vocab_size} vs {len(arr)}")
+            require(list(t.encode(arr)) == list(range(len(arr))) and list(t.decode(list(range(len(arr))))) == arr, f"C14:{mode}:resized:codec", "codecs not inverse after resizing")
     ns = [n for _, n in case["seq"]]
     return {"nt": len(ns) >= 2 and any(a > b for a, b in zip(ns, ns[1:])), "labels": ["descending" if any(a > b for a, b in zip(ns, ns[1:])) else "ascending"]}
 
@@ -159,6 +175,39 @@ def check_prefix(case: dict):
     b = list(_legacy("AOTP_UT_uniform", m).token_arr)
     require(b[: len(a)] == a, "C14:AOTP_UT_uniform:prefix", f"vocabulary for n={n} is not a prefix of the one for m={m}")
     return {"nt": n >= 2, "labels": []}
+
+
+def check_prefix_large(case: dict):
+    """grid sizes beyond the modular vocabulary's 50: the corner-first order itself (first k^2 cells = the k x k grid for every k <= m)
+    and the prefix property of the legacy corner-first vocabulary"""
+    from maze_dataset.utils import corner_first_ndindex
+
+    m = case["m"]
+    order = [tuple(int(x) for x in q) for q in call("C14:corner_first_ndindex", corner_first_ndindex, m)]
+    require(len(order) == m * m and len(set(order)) == m * m, "C14:corner-first:not-a-permutation", f"m={m}: {len(order)} entries, {len(set(order))} distinct")
+    seen = set()
+    k = 0
+    for idx, q in enumerate(order):
+        seen.add(q)
+        if idx + 1 == (k + 1) * (k + 1):
+            k += 1
+            require(seen == {(i, j) for i in range(k) for j in range(k)}, "C14:corner-first:large", f"m={m}: the first {k}^2 cells are not the {k} x {k} grid (e.g. {sorted(seen - {(i, j) for i in range(k) for j in range(k)})[:3]})")
+    b = list(_legacy("AOTP_UT_uniform", m).token_arr)
+    for n in case["ns"]:
+        a = list(_legacy("AOTP_UT_uniform", n).token_arr)
+        require(b[: len(a)] == a, "C14:AOTP_UT_uniform:prefix", f"vocabulary for n={n} is not a prefix of the one for m={m}; first coordinate tokens of m: {b[11:15]}")
+    r = list(_legacy("AOTP_UT_rasterized", m).token_arr)
+    require(r[11:] == [f"({i},{j})" for i in range(m) for j in range(m)], "C14:AOTP_UT_rasterized:order", f"m={m}: not row-major")
+    return {"nt": True, "labels": [f"m>={m // 50 * 50}"]}
+
+
+def _prefix_large_cases(sizes):
+    def cases(shard, nshards):
+        for k, m in enumerate(sizes):
+            if k % nshards == shard:
+                yield {"m": m, "ns": sorted({n for n in (1, 2, 7, 50, 51, 73, 74, m - 1) if 1 <= n < m})}
+
+    return cases
 
 
 def _codec(vocab):
@@ -184,6 +233,16 @@ def check_seq(case: dict):
     require(joined == " ".join(toks), f"C14:{nm}:decode-joined", f"{joined[:60]!r}")
     enc2 = call(f"C14:{nm}:encode-joined", t.encode, joined)
     require(list(enc2) == ids, f"C14:{nm}:encode-joined", f"encode of joined string = {list(enc2)[:8]}..")
+    # the caller pads / truncates what it got and asks again: the codecs must answer as before
+    for res in (dec, enc, enc2):
+        if isinstance(res, list):
+            res.extend(res[:2])
+            del res[:1]
+    dec_b = call(f"C14:{nm}:decode", t.decode, ids)
+    enc_b = call(f"C14:{nm}:encode", t.encode, toks)
+    enc2_b = call(f"C14:{nm}:encode-joined", t.encode, joined)
+    require(list(dec_b) == toks and list(enc_b) == ids and list(enc2_b) == ids, f"C14:{nm}:codec-depends-on-earlier-results",
+            "a second call (after the caller edited the first results in place) answers differently")
     return {"nt": len(ids) >= 2, "labels": [nm]}
 
 
@@ -284,8 +343,10 @@ def subs(tier: str):
         Sub("corner-first", check_corner_first, "exhaustive", cases=_corner, exhaustive_flag=True),
         Sub("legacy-vocab", check_legacy, "exhaustive", cases=_legacy_cases, exhaustive_flag=True),
         Sub("uniform-prefix", check_prefix, "exhaustive", cases=_prefix_cases, exhaustive_flag=True),
+        Sub("corner-first-beyond-50", check_prefix_large, "exhaustive", cases=_prefix_large_cases([51, 64, 73, 74, 75, 90, 100, 127, 128, 129, 150, 181, 182, 200, 256] if q else list(range(51, 301)))),
         Sub("legacy-construction-order", check_legacy_sequence, "hypothesis",
-            strategy=lambda: st.fixed_dictionaries({"seq": st.lists(st.tuples(st.sampled_from(MODES), st.integers(1, 50)).map(list), min_size=2, max_size=6)}),
+            strategy=lambda: st.fixed_dictionaries({"seq": st.lists(st.tuples(st.sampled_from(MODES), st.integers(1, 50)).map(list), min_size=2, max_size=6),
+                                                    "resize": st.lists(st.integers(1, 30), max_size=3)}),
             examples=40 if q else 3000),
         Sub("sequences", check_seq, "hypothesis", strategy=_seq, examples=120 if q else 15000),
         Sub("unknown", check_unknown, "hypothesis", strategy=_unknown, examples=80 if q else 8000),
